@@ -142,7 +142,7 @@ Lemma all_cops_complete o : In o all_cops.
 Proof. destruct o; vm_compute; tauto. Qed.
 
 (* for every ordered assignment of widths, every language, operator class and operand pair: the model
-   agrees with ISO C or the disagreement falls in one of the five classes *)
+   agrees with ISO C or the disagreement falls in one of the four classes *)
 Theorem deviations_explained_for_all_widths w cpp op a b : ordered w -> explain cpp w op a b <> 9.
 Proof.
   intros H. rewrite <- (explain_canon cpp w op a b H).
@@ -167,7 +167,7 @@ Qed.
 (* spelled out: outside the five classes the model gives the ISO C type *)
 Corollary result_type_spec_for_all_widths w cpp op a b : ordered w ->
   ctype_of (result_type (opk_of op) (vt_of a) (vt_of b)) = Some (c_result cpp w op a b) \/
-  (1 <= explain cpp w op a b /\ explain cpp w op a b <= 5).
+  (1 <= explain cpp w op a b /\ explain cpp w op a b <= 4).
 Proof.
   intros H. pose proof (deviations_explained_for_all_widths w cpp op a b H) as Hn.
   destruct (N.eq_dec (explain cpp w op a b) 0) as [E|E]; [left; exact (explain_0_agrees' cpp w op a b E)|].
@@ -183,7 +183,6 @@ Lemma explain_class_sound cpp w op a b :
   (k = 2 -> (cause_promotion w a = true \/ cause_promotion w b = true) /\ op <> CCompare) /\
   (k = 3 -> cpp = false /\ op = CCompare) /\
   (k = 4 -> cpp = false /\ op = CCond /\ small_same a b = true) /\
-  (k = 5 -> op = CCond /\ crank a = crank b /\ ctype_eqb a b = false) /\
   (k <> 0 -> agrees cpp w op a b = false).
 Proof.
   unfold explain. destruct (agrees cpp w op a b); [repeat split; intros; try discriminate; congruence|].
